@@ -136,7 +136,7 @@ Fixpoint tzid_scan (skip : nat) (s : str) : list str :=
       if startswith s_TZIDeq s then
         let '(name, after) := span (fun c => negb (c =? 58)) (skipn 5 s) in
         match name, after with
-        | _ :: _, _ :: _ => name :: tzid_scan (4 + length name + 1)%nat r
+        | _ :: _, _ :: _ => name :: tzid_scan (4 + List.length name + 1)%nat r
         | _, _ => tzid_scan O r
         end
       else tzid_scan O r
